@@ -97,7 +97,7 @@ CHECKS.update({
         text="Theorems restore_pairs (history rebuilt from a checkpoint has exactly the stored pairs as consecutive differences, any additive group), "
              "restore_keeps_most_recent (with memory maxcor' the most recent min(m, maxcor') pairs are kept, in order, matrices rebuilt from them), "
              "restore_roundtrip (the history rebuilt from the pairs of a result whose x ends its stored history IS that history: the restart holds the "
-             "memory of the uninterrupted run), restart_noiter_same_pairs (run level, ordered field: a restart with maxiter <= checkpoint.nit, no scaler, update or target, returns the checkpoint's most recent min(m, maxcor) pairs, its nit and the clipped start — by unfolding the whole driver model on the checkpoint path), restart_state / restart_continues / restart_same_result (Props/C06Sim, ordered field: the loop state a restart rebuilds from a checkpoint IS the state the checkpoint is a snapshot of, up to the ghost logs and the wrapper's cache — the history rebuilt from the pairs is the history — and from there the loop of the restart computes what the loop of the uninterrupted run computes, for any number of further iterations: a simulation through the whole driver; hypotheses: the point ends its stored history with an accepted pair (else K4), no scaler (else K1), no update function or target, callbacks that let the run go on, the first line search of the continuation evaluates at a point other than the current one); bit-equality is not a theorem (the reconstruction rounds): restarts at every iteration k of real runs, with equal "
+             "memory of the uninterrupted run), restart_noiter_same_pairs (run level, ordered field: a restart with maxiter <= checkpoint.nit, no scaler, update or target, returns the checkpoint's most recent min(m, maxcor) pairs, its nit and the clipped start — by unfolding the whole driver model on the checkpoint path), restart_state / restart_continues / restart_same_result (Props/C06Sim, ordered field: the loop state a restart rebuilds from a checkpoint IS the state the checkpoint is a snapshot of, up to the ghost logs and the wrapper's cache — the history rebuilt from the pairs is the history — and from there the loop of the restart computes what the loop of the uninterrupted run computes, for any number of further iterations: a simulation through the whole driver; hypotheses: the point ends its stored history with an accepted pair (else K4), no scaler (else K1), no update function or target, callbacks that let the run go on, the first line search of the continuation evaluates at a point other than the current one), restart_at_every_split (Props/C06Inv: the state hypothesis is an invariant — fresh_rinv: the state a fresh run enters its loop with is restartable; iterBody_rinv: an iteration that goes on and whose pair is stored keeps it so; reach_rinv / mainLoop_of_reach: every loop-head state reached through such iterations is restartable and the run passes through it — so the continuation theorem holds at every split point of a fresh run as long as no pair was rejected (K4) under environment hypotheses only: gradient and kernel outputs of the length of the point, lb <= ub, maxcor >= 1); bit-equality is not a theorem (the reconstruction rounds): restarts at every iteration k of real runs, with equal "
              "and reduced maxcor, are replayed through the model bit for bit and the next iterate / pairs compared with the uninterrupted run. Known "
              "finding K4 (restart from a result whose x is not the end of its stored history) reported as KNOWN-FINDING.",
         note=SHELL_NOTE, technique="Lean 4 proof (list induction over an additive group) + bit-exact replay of restarts + split-run differential against the uninterrupted run",
